@@ -62,7 +62,7 @@ Print Assumptions C02_check_agrees.
    whenever the model does not Crash.  So the theorems above speak about the code as it is now for these functions;
    put_obj/remove_obj/remove_min, which call them, stay tied by the lockstep runs. *)
 From Coq Require Import ZArith.
-From QV.Tree Require Import TreeHeap TreeHeapProofs TreeHeapMrl TreeHeapFix TreeHeapRmin TreeHeapPut.
+From QV.Tree Require Import TreeHeap TreeHeapProofs TreeHeapMrl TreeHeapFix TreeHeapRmin TreeHeapPut TreeHeapFind.
 From QV.Gen Require Import TreeOps.
 Theorem C02_c_helpers_refine :
   refines c_flip_color flip /\ refines c_rotate_left rotl /\ refines c_rotate_right rotr /\
@@ -96,6 +96,13 @@ Theorem C02_c_put_obj_refines : forall (kc : positive -> Z) fuel h p n (t t' : t
   put (fun (_ x : positive) => zcmp (kc x)) (fun (x _ : positive) => x) fuel t n = Ok t' ->
   exists p' h', c_put_obj kc fuel p (Some n) h = Ok (p', h') /\ rep h' p' t' /\ frame (n :: elements t) h h' /\ NoDup (elements t').
 Proof. exact c_put_refines_ex. Qed.
+(* find_obj(): the translated look-up loop returns the node object the model's find returns (None = not found), leaves the heap
+   alone and needs no more fuel than the number of nodes + 1; with the guard of its first line true (no key given) it returns NULL.
+   k stands for the searched key, whose comparisons are the answers kc. *)
+Theorem C02_c_find_obj : forall (kc : positive -> Z) (k : positive) (t : tree positive) h p, rep h p t ->
+  c_find_obj kc (S (size t)) p false h = Ok (find (fun (_ x : positive) => zcmp (kc x)) t k, h) /\
+  forall fuel, c_find_obj kc fuel p true h = Ok (None, h).
+Proof. exact c_find_obj_ok. Qed.
 (* non-vacuity: a three-node heap with a red right child; fix() rotates it to the left *)
 Example C02_c_helpers_nonvacuous :
   let h : heap := fun j => match j with 1%positive => Some (mkcell false (Some 2%positive) (Some 3%positive))
@@ -111,3 +118,4 @@ Print Assumptions C02_c_flip_same_pointer.
 Print Assumptions C02_c_find_min_max.
 Print Assumptions C02_c_remove_min_refines.
 Print Assumptions C02_c_put_obj_refines.
+Print Assumptions C02_c_find_obj.
